@@ -6,7 +6,7 @@ usage: tools/mutant_matrix.py [id ...] [--jobs N]"""
 import json, os, shutil, subprocess, sys, concurrent.futures as cf
 V = os.path.dirname(os.path.dirname(os.path.abspath(__file__)))
 REL = {"C01": ["C01", "C06", "C11"], "C02": ["C02", "C12"], "C03": ["C03"], "C04": ["C04"], "C05": ["C05", "C11"], "C06": ["C06", "C01"], "C07": ["C07", "C06"],
-       "C08": ["C08"], "C09": ["C09", "C03"], "C10": ["C10"], "C11": ["C11"], "C12": ["C12", "C02", "C03"], "C13": ["C13"], "C14": ["C14"], "C15": ["C15"],
+       "C08": ["C08", "C13"], "C09": ["C09", "C03"], "C10": ["C10"], "C11": ["C11"], "C12": ["C12", "C02", "C03"], "C13": ["C13"], "C14": ["C14"], "C15": ["C15"],
        "C16": ["C16"], "C17": ["C17"], "C18": ["C18"], "C19": ["C19"]}
 
 def one(mid):
